@@ -74,6 +74,7 @@ def deductive(rep: Report, tier):
         rep.canary(f"{P}.canary.modifies_clause_needed.{q.split('::')[1]}", s is not None and bool(s.writes & mod))
     # static import resolution: the flat fallback of every package-relative import reaches the same file
     rep.add(import_obligation(rep))
+    rep.add(relative_import_obligation(rep))
     rep.solver_secs += secs
     rep.notes.append(f"frame analysis: {len(summ)} functions analysed in {secs:.2f}s (fixpoint over call summaries)")
 
@@ -100,6 +101,39 @@ def import_obligation(rep):
                     bad.append({"file": rel, "line": node.lineno, "module": name, "candidates": sorted(set(cands))})
     return Obligation(f"{P}.imports.flat_names_unambiguous", "quatica/*", "all-shapes", smt.PROVED if not bad and n else smt.REFUTED, "static-resolution", 0.0,
                       {"ambiguous": bad[:5], "imports": n} if bad or not n else None, kind="frame")
+
+
+def relative_import_obligation(rep):
+    """Every package-relative import in a top-level module of quatica/ (which the flat style imports without a parent package) sits in a try block whose handler imports the same names
+    through an absolute / flat module path: otherwise the flat-module import style silently loses that dependency."""
+    import ast
+    bad = []
+    n = 0
+    for rel in ANCHOR:
+        if os.path.dirname(rel) != "quatica":
+            continue        # modules of the sub-package decomp/ are imported as part of a package in both styles: their relative imports work in both
+        m = rep.repo.module(rel)
+        guarded = set()
+        for node in ast.walk(m.tree):
+            if isinstance(node, ast.Try):
+                fallback_names = set()
+                for h in node.handlers:
+                    for x in ast.walk(h):
+                        if isinstance(x, ast.ImportFrom) and x.level == 0:
+                            fallback_names |= {a.asname or a.name for a in x.names}
+                        elif isinstance(x, ast.Import):
+                            fallback_names |= {(a.asname or a.name).split(".")[0] for a in x.names}
+                for x in node.body:
+                    for y in ast.walk(x):
+                        if isinstance(y, ast.ImportFrom) and y.level > 0 and {a.asname or a.name for a in y.names} <= fallback_names:
+                            guarded.add(id(y))
+        for node in ast.walk(m.tree):
+            if isinstance(node, ast.ImportFrom) and node.level > 0:
+                n += 1
+                if id(node) not in guarded:
+                    bad.append({"file": rel, "line": node.lineno, "import": ast.unparse(node)})
+    return Obligation(f"{P}.imports.relative_imports_have_a_flat_fallback", "quatica/*", "all-shapes", smt.PROVED if not bad else smt.REFUTED, "static-resolution", 0.0,
+                      {"unguarded": bad[:5], "relative_imports": n} if bad else None, kind="frame")
 
 
 # ---------------------------------------------------------------------------------------------------
@@ -369,6 +403,11 @@ with contextlib.redirect_stdout(io.StringIO()):
         feed(LUm.quaternion_lu(A, return_p=True)); feed(HB.hessenbergize(A)); feed(U.power_iteration(0.5 * (A + U.quat_hermitian(A)), return_eigenvalue=True))
         feed(S.QGMRESSolver(tol=1e-10).solve(A, b)[0]); feed(S.NewtonSchulzPseudoinverse(max_iter=5).compute(At)[:2])
         feed(S.RandomizedSketchProjectPseudoinverse(block_size=2, max_iter=4).compute(At)[0])
+        x_lu, info_lu = S.QGMRESSolver(tol=1e-10, preconditioner="left_lu").solve(A, b)
+        feed(x_lu); feed(info_lu["iterations"])
+        feed(S.RandomizedSketchProjectPseudoinverse(block_size=2, max_iter=3, column_solver="spd").compute(At)[0])
+        feed(S.HybridRSPNewtonSchulz(r=2, p=2, T=2, max_iter=4).compute(At)[0]); feed(S.CGNEQSolver(max_iter=4).compute(At)[0])
+        feed(S.CGNEQSolver(max_iter=3, preconditioner_rank=2).compute(At)[0]); feed(S.HigherOrderNewtonSchulzPseudoinverse(max_iter=3).compute(At)[0])
         print("REP", rep, h.hexdigest(), file=sys.stderr)
 '''
 
